@@ -21,6 +21,7 @@
 //!             every varIndexBase × DeltaSetIndexMap.mapCount{0,1,4,MAX};
 //!             (Var)ColorLine numStops{0,1,255,MAX} × that line's first stop varIndexBase;
 //!             clip startGlyphID × endGlyphID.
+//!   part 3:   every paint format 1..=32 as the *last object* of a COLR table × 0..=4 missing trailing bytes.
 //! Each item: for glyph ids {1,2,3,4,0xFFFF} and both formats, `ColorGlyph::paint` (recording painter, both
 //! `paint_cached_color_glyph` answers) and `bounding_box` at the default location and at wght = +1.0.
 //! Oracle: returns, never panics (C20: no overflow / debug-assert panic).
@@ -343,10 +344,70 @@ pub struct Item {
     pub colr: Vec<u8>,
 }
 
+/// Size in bytes of the fixed part of each paint format 1..=32 (format byte included).
+pub const PAINT_SIZES: [usize; 33] = [
+    0, 6, 5, 9, 16, 20, 16, 20, 12, 16, 6, 3, 7, 7, 8, 12, 8, 12, 12, 16, 6, 10, 10, 14, 6, 10, 10, 14, 8, 12, 12, 16, 8,
+];
+
+/// COLR v1 table whose *last object* is a paint of `format` (the root paint of glyph 2), `missing` bytes short.
+/// Child / colour-line offsets inside the paint are 0 (the paint itself: any traversal ends in the cycle
+/// guard); for PaintTransform / PaintVarTransform (12, 13) the trailing object is the (Var)Affine2x3 record.
+pub fn last_paint_table(format: u8, missing: usize) -> Vec<u8> {
+    let mut p = vec![format];
+    let size = PAINT_SIZES[format as usize];
+    match format {
+        1 => p.extend([1, 0, 0, 0, 0]),       // numLayers 1, firstLayerIndex 0
+        2 | 3 => p.extend([0, 1, 0x40, 0]),   // palette 1, alpha 1.0
+        10 => p.extend([0, 0, 0, 0, 1]),      // paint offset 0, glyph 1
+        11 => p.extend([0, 2]),               // PaintColrGlyph -> glyph 2 (itself)
+        12 | 13 => p.extend([0, 0, 0, 0, 0, 7]), // child 0, transform right after
+        _ => {}
+    }
+    // remaining fixed fields: small non-zero numbers, then varIndexBase = 0 for the Var forms
+    while p.len() < size {
+        p.push(if p.len() < 4 { 0 } else { 1 });
+    }
+    let var = matches!(format, 3 | 5 | 7 | 9 | 13 | 15 | 17 | 19 | 21 | 23 | 25 | 27 | 29 | 31);
+    if var && format != 13 {
+        let n = p.len();
+        p[n - 4..].copy_from_slice(&[0, 0, 0, 0]);
+    }
+    if format == 12 || format == 13 {
+        for v in [0x10000u32, 0, 0, 0x10000, 0, 0] {
+            p.extend_from_slice(&v.to_be_bytes());
+        }
+        if format == 13 {
+            p.extend_from_slice(&[0, 0, 0, 0]);
+        }
+    }
+    let mut t = vec![0u8, 1, 0, 0];
+    t.extend_from_slice(&[0; 10]); // v0 offsets/counts
+    t.extend_from_slice(&34u32.to_be_bytes()); // baseGlyphListOffset
+    t.extend_from_slice(&[0; 16]); // layerList, clipList, varIndexMap, varStore
+    debug_assert_eq!(t.len(), 34);
+    t.extend_from_slice(&1u32.to_be_bytes());
+    t.extend_from_slice(&[0, 2]);
+    t.extend_from_slice(&10u32.to_be_bytes());
+    t.extend(p);
+    let keep = t.len() - missing;
+    t.truncate(keep);
+    t
+}
+
 pub fn items(part: u64) -> Vec<Item> {
     let t = template();
     let mut out = vec![];
     match part {
+        3 => {
+            for format in 1u8..=32 {
+                for missing in 0..=4usize {
+                    out.push(Item {
+                        desc: format!("paint format {format} as the last object of the COLR table, {missing} bytes missing"),
+                        colr: last_paint_table(format, missing),
+                    });
+                }
+            }
+        }
         0 | 1 => {
             let with_map = part == 1;
             out.push(Item {
@@ -510,7 +571,7 @@ impl Default for Parts {
 
 /// `{"driver":"colridx","part":0|1|2,"only":idx?,"from":idx?}`
 pub fn drive(spec: &Value) -> CaseOut {
-    let Some(part) = spec["part"].as_u64().filter(|p| *p <= 2) else {
+    let Some(part) = spec["part"].as_u64().filter(|p| *p <= 3) else {
         return crate::bad_case(format!("bad colridx case {spec}"));
     };
     let parts = Parts::new();
@@ -531,14 +592,15 @@ pub fn drive(spec: &Value) -> CaseOut {
 }
 
 pub fn gen_cases() -> Vec<Value> {
-    (0..3).map(|p| json!({"driver": "colridx", "part": p})).collect()
+    (0..4).map(|p| json!({"driver": "colridx", "part": p})).collect()
 }
 
 pub fn bounds() -> Value {
     let t = template();
     json!({"labelled_fields": t.with_map.fields.iter().map(|f| format!("{} ({} bytes)", f.0, f.2)).collect::<Vec<_>>(),
         "values_per_field": "0, 1, MAX-255, MAX-1, MAX, MAX/2, MAX/2+1 of the field width",
-        "items": [items(0).len(), items(1).len(), items(2).len()],
+        "items": [items(0).len(), items(1).len(), items(2).len(), items(3).len()],
+        "part3": "each paint format 1..=32 as the last object of the table x 0..=4 missing bytes",
         "pairs": "PaintColrLayers.firstLayerIndex x numLayers{0,1,255} x LayerList.numLayers{0,1,3,MAX}; v0 firstLayerIndex x numLayers{0,1,255,MAX} x numLayerRecords{0,2,MAX}; every varIndexBase x mapCount{0,1,4,MAX}; VarColorLine numStops{0,1,255,MAX} x stop0.varIndexBase; clip start x end",
         "glyph_ids": [1, 2, 3, 4, 65535], "locations": ["default", "wght +1.0"]})
 }
